@@ -15,20 +15,23 @@ Model: Dispatch/Model.lean.  A *fault* is a `raise` statement anywhere in any ca
 context body, or a value outside a parameter's bounds at any key of an `update`; the theorems
 quantify over all programs, so over every position and every sequence of faults.  Every theorem
 covers the `raised` outcomes — `r ≠ oof` only excludes exhausted fuel.
-Not modelled (DESIGN.md): constructors, `edit_constant` (C14), Event parameters.
+Event parameters are modelled: `idle` includes "every Event parameter is in its self-resetting mode".
+Not modelled (DESIGN.md): constructors, `edit_constant` (C14).
 -/
 import ParamVerif.Dispatch.Lemmas
 
 namespace ParamVerif.Dispatch
 
 /-- the dispatcher is idle: no batch open, no trigger in progress, nothing queued -/
-def idle (w : World) : Prop := w.batch = false ∧ w.trigger = false ∧ w.events = [] ∧ w.queued = []
+def idle (w : World) : Prop :=
+  w.batch = false ∧ w.trigger = false ∧ w.events = [] ∧ w.queued = [] ∧ w.setMode = []
 
 instance (w : World) : Decidable (idle w) := by unfold idle; exact inferInstance
 
 /-- a freshly built object with the given values and watchers -/
 def fresh (vals : List Int) (regs : List Watcher) (ncalls : Nat) : World :=
-  { vals := vals, regs := regs, batch := false, trigger := false, events := [], queued := [], ncalls := ncalls }
+  { vals := vals, regs := regs, batch := false, trigger := false, events := [], queued := [], setMode := [],
+    ncalls := ncalls }
 
 /-- **C05 (flags).**  Whatever a call does and however it ends — normally, with a rejected value,
 with an exception from a callback or a context body at any depth — the batching flag and the
@@ -44,23 +47,27 @@ dispatcher idle, *also when it raises*: nothing stays queued for "some later unr
 assignment". -/
 theorem idle_in_idle_out (c : Cfg) (f : Nat) (s : Stmt) (w : World) (hi : idle w)
     (h : (run c f (.stmt s) w).1 ≠ .oof) : idle (run c f (.stmt s) w).2.1 := by
-  obtain ⟨hb, ht, he, hq⟩ := hi
+  obtain ⟨hb, ht, he, hq, hm⟩ := hi
   have hfl := flags c f (.stmt s) w h
   have hq' := (queues_empty c f (.stmt s) w h hb (fun _ => hq)).2 rfl ⟨he, hq⟩
-  exact ⟨hfl.1.trans hb, hfl.2.trans ht, hq'.1, hq'.2⟩
+  have hm' := setMode_subset c f (.stmt s) w h
+  exact ⟨hfl.1.trans hb, hfl.2.trans ht, hq'.1, hq'.2,
+    List.eq_nil_iff_forall_not_mem.2 (fun p hp => by have := hm' p hp; rw [hm] at this; cases this)⟩
 
 /-- … and so does every program (sequence of statements), e.g. one that stops at a fault. -/
 theorem idle_in_idle_out_program (c : Cfg) (f : Nat) (l : List Stmt) (w : World) (hi : idle w)
     (h : (run c f (.stmts l) w).1 ≠ .oof) : idle (run c f (.stmts l) w).2.1 := by
-  obtain ⟨hb, ht, he, hq⟩ := hi
+  obtain ⟨hb, ht, he, hq, hm⟩ := hi
   have hfl := flags c f (.stmts l) w h
   have hq' := (queues_empty c f (.stmts l) w h hb (fun _ => hq)).2 rfl ⟨he, hq⟩
-  exact ⟨hfl.1.trans hb, hfl.2.trans ht, hq'.1, hq'.2⟩
+  have hm' := setMode_subset c f (.stmts l) w h
+  exact ⟨hfl.1.trans hb, hfl.2.trans ht, hq'.1, hq'.2,
+    List.eq_nil_iff_forall_not_mem.2 (fun p hp => by have := hm' p hp; rw [hm] at this; cases this)⟩
 
 /-- **C05 (behaves like a fresh twin).**  An idle dispatcher has no hidden state: it *is* the
 freshly built object with the same values and watchers, so every later call behaves identically. -/
 theorem idle_is_fresh (w : World) (hi : idle w) : w = fresh w.vals w.regs w.ncalls := by
-  obtain ⟨hb, ht, he, hq⟩ := hi
+  obtain ⟨hb, ht, he, hq, hm⟩ := hi
   cases w
   simp_all [fresh]
 
@@ -78,7 +85,7 @@ empty: the events of the keys already applied have been dispatched by then. -/
 theorem update_announces_before_raising (c : Cfg) (f : Nat) (kvs : List (Nat × Int)) (w : World)
     (hi : idle w) (h : (run c f (.update kvs) w).1 ≠ .oof) :
     (run c f (.update kvs) w).2.1.events = [] ∧ (run c f (.update kvs) w).2.1.queued = [] := by
-  obtain ⟨hb, _, he, hq⟩ := hi
+  obtain ⟨hb, _, he, hq, _⟩ := hi
   exact (queues_empty c f (.update kvs) w h hb (fun _ => hq)).2 rfl ⟨he, hq⟩
 
 /-- **C05 (still deferred inside a surrounding batch).**  Inside an open batch, after any
@@ -101,6 +108,13 @@ theorem flush_leaves_nothing_behind (c : Cfg) (f : Nat) (w : World) (hb : w.batc
     (hinv : w.events = [] → w.queued = []) (h : (run c f .flush w).1 ≠ .oof) :
     (run c f .flush w).2.1.events = [] ∧ (run c f .flush w).2.1.queued = [] :=
   (queues_empty c f .flush w h hb hinv).1 rfl
+
+/-- **C05 (self-resetting Event parameters).**  No call, however it ends, leaves an Event
+parameter in the non-resetting mode 'set' unless it already was (so from an idle dispatcher every
+Event parameter keeps resetting itself). -/
+theorem event_modes_never_stick (c : Cfg) (f : Nat) (call : Call) (w : World)
+    (h : (run c f call w).1 ≠ .oof) : ∀ p ∈ (run c f call w).2.1.setMode, p ∈ w.setMode :=
+  setMode_subset c f call w h
 
 /-! ### Non-vacuity -/
 
